@@ -274,7 +274,7 @@ fn explore(ctx: &mut Ctx) {
     vcore::model::self_check().expect("reference model self-check failed");
 
     // Family 1: every bit sequence of length 0..=N.
-    let n = ctx.tier.pick(12, 18);
+    let n = ctx.tier.pick(14, 18);
     for len in 0..=n {
         for word in 0..(1u64 << len) {
             let c = Case::Small { len, word };
